@@ -392,6 +392,17 @@ class SamplerUser(ConsumerClient):
                       "src_edit", "src_edit", "detector", "det_edit", "backend",
                       "edit_circuit", "edit_circuit", "new_src", "new_det",
                       "new_ps", "pred_fault", "reject", "ps_add"])
+        if r.random() < 0.04:
+            # edit the consumer's own source / detector in place, through it
+            comp = r.choice(["source", "detector"])
+            if comp == "source":
+                attr = r.choice(["brightness", "indistinguishability"])
+                v = r.choice([1, 0.9, 0.6])
+            else:
+                attr = r.choice(["efficiency", "photon_counting"])
+                v = r.choice([1, 0.9]) if attr == "efficiency" else r.random() < 0.5
+            return {"op": "cons_component_set", "kind": "sam", "s": sid,
+                    "comp": comp, "attr": attr, "value": v}
         if k == "ps_add":
             rules = [p for p in w.pool["ps"] if w.meta["ps"][p]["pkind"] == "rules"]
             if not rules:
